@@ -25,7 +25,10 @@ type underLog struct {
 	hdrs   []int
 	body   []byte
 	budget int // bytes the writer still accepts (negative: unlimited)
+	flushFails bool
 }
+
+var errFlushFails = errors.New("verif: flush fails")
 
 func (u *underLog) hasFinal() bool {
 	for _, c := range u.hdrs {
@@ -103,7 +106,13 @@ type fakeRich struct {
 }
 
 func (f fakeRich) ReadFrom(src io.Reader) (int64, error) { return underReadFrom(f.underLog, src) }
-func (f fakeRich) FlushError() error                      { *f.calls = append(*f.calls, "flush"); return nil }
+func (f fakeRich) FlushError() error {
+	*f.calls = append(*f.calls, "flush")
+	if f.underLog.flushFails {
+		return errFlushFails
+	}
+	return nil
+}
 func (f fakeRich) Hijack() (net.Conn, *bufio.ReadWriter, error) {
 	*f.calls = append(*f.calls, "hijack")
 	return nil, nil, nil
@@ -142,6 +151,7 @@ type wState struct {
 	Hij    bool  `json:"hij"`
 	Hdrs   []int `json:"hdrs"`
 	Body   int   `json:"body"`
+	Ct     string `json:"ct"`
 }
 
 type wNodeState struct {
@@ -183,7 +193,7 @@ var writerVariants = []writerVariant{
 	{"plain", nil, func(u *underLog, _ *[]string, _ *int) http.ResponseWriter { return fakePlain{u} }},
 	{"readerfrom", []string{"readerfrom"}, func(u *underLog, _ *[]string, _ *int) http.ResponseWriter { return fakeRF{u} }},
 	{"flusher", []string{"flusher"}, func(u *underLog, _ *[]string, f *int) http.ResponseWriter { return fakeFlusher{u, f} }},
-	{"rich", []string{"readerfrom", "flusher", "hijacker", "pusher", "deadlines", "duplex"}, func(u *underLog, c *[]string, _ *int) http.ResponseWriter {
+	{"rich", []string{"readerfrom", "flusher", "flusherror", "hijacker", "pusher", "deadlines", "duplex"}, func(u *underLog, c *[]string, _ *int) http.ResponseWriter {
 		return fakeRich{u, c}
 	}},
 }
@@ -278,7 +288,17 @@ func runWriterScript(v writerVariant, path []*wedge, last *wedge, nodes map[stri
 					got = "error: " + err.Error()
 				}
 			case "Flush":
-				got = capWord(w.FlushError())
+				u.flushFails = op.Arg[0] == 1
+				ferr := w.FlushError()
+				u.flushFails = false
+				if errors.Is(ferr, errFlushFails) {
+					got = "flusherr"
+				} else {
+					got = capWord(ferr)
+				}
+			case "SetContentType":
+				w.Header().Set("Content-Type", "application/x-pre")
+				got = "ok"
 			case "Hijack":
 				_, _, err := w.Hijack()
 				got = capWord(err)
@@ -313,14 +333,19 @@ func runWriterScript(v writerVariant, path []*wedge, last *wedge, nodes map[stri
 				return
 			}
 			// accessors and the log of the underlying writer
-			gotSt := map[string]any{"Status": w.Status(), "Size": w.Size(), "Written": w.Written(), "headers_forwarded": append([]int{}, u.hdrs...), "body_bytes_accepted": len(u.body)}
+			ctName := map[string]string{"": "none", "application/x-pre": "pre", "text/plain; charset=UTF-8": "text", "application/x-verif": "given", "application/octet-stream": "given"}
+			gotCt, known := ctName[u.h.Get("Content-Type")]
+			if !known {
+				gotCt = u.h.Get("Content-Type")
+			}
+			gotSt := map[string]any{"Status": w.Status(), "Size": w.Size(), "Written": w.Written(), "headers_forwarded": append([]int{}, u.hdrs...), "body_bytes_accepted": len(u.body), "content_type": gotCt}
 			wantSize := want.Size
 			if wantSize < 0 {
 				wantSize = 0
 			}
 			wantBody := want.Body
 			wantHdrs := want.Hdrs
-			wantSt := map[string]any{"Status": want.Status, "Size": wantSize, "Written": want.Size >= 0, "headers_forwarded": append([]int{}, wantHdrs...), "body_bytes_accepted": wantBody}
+			wantSt := map[string]any{"Status": want.Status, "Size": wantSize, "Written": want.Size >= 0, "headers_forwarded": append([]int{}, wantHdrs...), "body_bytes_accepted": wantBody, "content_type": want.Ct}
 			a, _ := json.Marshal(gotSt)
 			b, _ := json.Marshal(wantSt)
 			if string(a) != string(b) {
@@ -428,7 +453,7 @@ GenHelperCodes == {200, 299, 300, 308, 309}
 		r.addCov("states", res.Distinct)
 		r.addCov("transitions", res.Generated)
 		// BFS tree
-		init := (&wNodeState{St: wState{Status: 200, Size: -1, Hdrs: []int{}}}).key()
+		init := (&wNodeState{St: wState{Status: 200, Size: -1, Hdrs: []int{}, Ct: "none"}}).key()
 		if _, ok := nodes[init]; !ok {
 			failTool("initial writer state not found: %s", init)
 		}
